@@ -3,5 +3,6 @@ from props import repo_common
 
 
 def run(ctx):
+    design = repo_common.repair_design_runs(ctx)
     out = ctx.go_test("cmd/restic", "^TestVerif_C34$", timeout=3300)
-    return repo_common.finish_trace(ctx, out, "model_checking")
+    return repo_common.finish_trace(ctx, out, "model_checking", extra_cov={"design_model_runs": design})
